@@ -1,6 +1,6 @@
 import Rtcm.Lemmas.Bits
 import Rtcm.Lemmas.Decode
-import Rtcm.Props.C10
+import Rtcm.Props.Base
 import Rtcm.Props.C06
 import Rtcm.Lemmas.Layout
 /-
@@ -31,7 +31,7 @@ import Rtcm.Lemmas.Layout
 -/
 namespace Rtcm
 
-theorem C03_all_defs_wf : ∀ e ∈ allDefs, wfDef T e.2 = true := C10_all_wf
+theorem C03_all_defs_wf : ∀ e ∈ allDefs, wfDef T e.2 = true := allDefs_wf
 
 /-- the extracted number is the big-endian value of the `w` payload bits starting at `off` -/
 theorem C03_extract_is_slice (p : Payload) (off w : Nat) (h : off + w ≤ p.blen) :
